@@ -8,14 +8,14 @@ use syn::Ident;
 use crate::wgsl::vertex_entry_structs;
 
 pub fn fragment_target_count(module: &Module, f: &Function) -> usize {
+    // Targets are indexed by location, so the array needs to reach the highest location used.
     match &f.result {
         Some(r) => match &r.binding {
             Some(b) => {
                 // Builtins don't have render targets.
-                if matches!(b, naga::Binding::Location { .. }) {
-                    1
-                } else {
-                    0
+                match b {
+                    naga::Binding::Location { location, .. } => *location as usize + 1,
+                    _ => 0,
                 }
             }
             None => {
@@ -23,8 +23,14 @@ pub fn fragment_target_count(module: &Module, f: &Function) -> usize {
                 match &module.types[r.ty].inner {
                     naga::TypeInner::Struct { members, .. } => members
                         .iter()
-                        .filter(|m| matches!(m.binding, Some(naga::Binding::Location { .. })))
-                        .count(),
+                        .filter_map(|m| match m.binding {
+                            Some(naga::Binding::Location { location, .. }) => {
+                                Some(location as usize + 1)
+                            }
+                            _ => None,
+                        })
+                        .max()
+                        .unwrap_or(0),
                     _ => 0,
                 }
             }
